@@ -38,12 +38,31 @@ def build(cfg):
 
     NL = cfg['NL']
     nodes = [3, 2, 1][:NL] if NL > 1 else 2
+    sweeper = generic_implicit
+    pclass, pparams = testequation0d, dict(lambdas=np.array([-1.0, -0.5]), u0=1.0)
+    swp = dict(num_nodes=nodes, quad_type=cfg.get('quad_type', 'RADAU-RIGHT'), QI=cfg.get('QI', 'IE'),
+               do_coll_update=bool(cfg['ENDDEP']))
+    if cfg.get('problem') == 'heat':
+        from pySDC.implementations.problem_classes.HeatEquation_ND_FD import heatNd_unforced
+        pclass, pparams = heatNd_unforced, dict(nu=0.1, freq=2, nvars=[31, 15, 7][:NL] if NL > 1 else 31, bc='dirichlet-zero')
+    elif cfg.get('problem') == 'imex':
+        from pySDC.implementations.problem_classes.HeatEquation_ND_FD import heatNd_forced
+        from pySDC.implementations.sweeper_classes.imex_1st_order import imex_1st_order
+        pclass, pparams = heatNd_forced, dict(nu=0.1, freq=2, nvars=[31, 15, 7][:NL] if NL > 1 else 31, bc='dirichlet-zero')
+        sweeper = imex_1st_order
+    elif cfg.get('problem') == 'vdp':
+        from pySDC.implementations.problem_classes.Van_der_Pol_implicit import vanderpol
+        pclass, pparams = vanderpol, dict(mu=2.0, newton_tol=1e-12, newton_maxiter=50, u0=np.array([2.0, 0.0]))
+    if cfg.get('residual_type'):
+        pass
     desc = dict(
-        problem_class=testequation0d,
-        problem_params=dict(lambdas=np.array([-1.0, -0.5]), u0=1.0),
-        sweeper_class=generic_implicit,
-        sweeper_params=dict(num_nodes=nodes, quad_type='RADAU-RIGHT', QI='IE', do_coll_update=bool(cfg['ENDDEP'])),
-        level_params=dict(dt=cfg['DT0'] * UNIT, restol=0.5, nsweeps=list(cfg['NSW']) if NL > 1 else cfg['NSW'][0]),
+        problem_class=pclass,
+        problem_params=pparams,
+        sweeper_class=sweeper,
+        sweeper_params=swp,
+        level_params=dict(dt=cfg['DT0'] * UNIT, restol=cfg.get('restol', 0.5),
+                          nsweeps=list(cfg['NSW']) if NL > 1 else cfg['NSW'][0],
+                          residual_type=cfg.get('residual_type', 'full_abs')),
         step_params=dict(maxiter=cfg['MAXITER']),
         convergence_controllers={
             BasicRestartingNonMPI: dict(max_restarts=cfg['MAXR'], crash_after_max_restarts=cfg['CRASH'],
@@ -52,7 +71,12 @@ def build(cfg):
         },
     )
     if NL > 1:
-        desc['space_transfer_class'] = IdentitySpaceTransfer
+        if cfg.get('problem') in ('heat', 'imex'):
+            from pySDC.implementations.transfer_classes.TransferMesh import mesh_to_mesh
+            desc['space_transfer_class'] = mesh_to_mesh
+            desc['space_transfer_params'] = dict(rorder=2, iorder=2)
+        else:
+            desc['space_transfer_class'] = IdentitySpaceTransfer
     cp = dict(mssdc_jac=cfg['JAC'], all_to_done=cfg['A2D'], hook_class=[LogSolution, LogStepSize])
     if cfg['PRED'] != 'none':
         cp['predict_type'] = cfg['PRED']
